@@ -471,6 +471,49 @@ var handlerFiles = []string{"core/store/ledgerstore/tx_handler.go", "smartcontra
 
 var commitNames = map[string]bool{"Commit": true, "CommitTo": true, "BatchCommit": true, "CommitToCacheDB": true}
 
+// cacheSites: the calls that create, reset or commit a CacheDB in the block loop and in the
+// transaction handlers (functions named in blockFuncs), in source order. The model's block loop
+// (run_block: Reset before every transaction) and costInvalidGas (a FRESH cache on the overlay,
+// committed) are pinned to this list in Props/C05.v.
+var blockFuncs = map[string][]string{
+	"core/store/ledgerstore/ledger_store.go": {"executeBlock", "handleTransaction"},
+	"core/store/ledgerstore/tx_handler.go":   {"costInvalidGas", "chargeCostGas", "HandleInvokeTransaction", "HandleDeployTransaction", "HandleEIP155Transaction"},
+}
+var cacheNames = map[string]bool{"Reset": true, "NewCacheDB": true, "Commit": true, "NewStateDB": true}
+
+func cacheSites(repo string) ([]string, []string) {
+	var out, errs []string
+	var files []string
+	for f := range blockFuncs {
+		files = append(files, f)
+	}
+	sort.Strings(files)
+	for _, rel := range files {
+		fset := token.NewFileSet()
+		f, err := parser.ParseFile(fset, filepath.Join(repo, rel), nil, 0)
+		if err != nil {
+			errs = append(errs, err.Error())
+			continue
+		}
+		for _, fn := range blockFuncs[rel] {
+			fd := findFn(f, fn)
+			if fd == nil || fd.Body == nil {
+				errs = append(errs, "cache sites: function "+fn+" not found in "+rel)
+				continue
+			}
+			ast.Inspect(fd.Body, func(n ast.Node) bool {
+				if ce, ok := n.(*ast.CallExpr); ok {
+					if se, ok := ce.Fun.(*ast.SelectorExpr); ok && cacheNames[se.Sel.Name] {
+						out = append(out, fmt.Sprintf("(%s, %s, %s)", hx.CoqStr(fn), hx.CoqStr(se.Sel.Name), hx.CoqStr(pr(fset, ce))))
+					}
+				}
+				return true
+			})
+		}
+	}
+	return out, errs
+}
+
 func commitCalls(repo, rel string) ([]string, error) {
 	fset := token.NewFileSet()
 	f, err := parser.ParseFile(fset, filepath.Join(repo, rel), nil, 0)
@@ -553,6 +596,13 @@ func produceCommitSites(repo string) ([]byte, []string) {
 	}
 	emit("commit_sites_exec", exec)
 	emit("commit_sites_handler", handler)
+	cs, cerrs := cacheSites(repo)
+	if len(cerrs) > 0 {
+		fmt.Fprintf(&b, "Definition translator_broken_cache_sites : unit := tt.\n")
+		return b.Bytes(), cerrs
+	}
+	fmt.Fprintf(&b, "(* (function, method, printed call) of every CacheDB / StateDB creation, Reset and Commit in the block loop and the transaction handlers *)\n")
+	fmt.Fprintf(&b, "Definition cache_sites_block : list (string * string * string) := [\n  %s\n].\n", strings.Join(cs, ";\n  "))
 	return b.Bytes(), nil
 }
 
